@@ -30,6 +30,7 @@ type pScript struct {
 	lastN      int
 	abandonAt  int          // iterate: Close after this many outputs (-1: read to the end)
 	preCancel  map[int]bool // iterate: Next call indices made with an already-cancelled context (then retried)
+	asProp     string       // attribute output violations of this execution to this property
 	deadlineAt map[int]time.Duration
 }
 
@@ -117,6 +118,18 @@ func pipelineWorld(r *R) {
 				return
 			}
 		}
+		// laziness also means that a Next call which cannot proceed (its context has already expired)
+		// requests nothing: every other call is made with a dead context first, and the sequence
+		// must come out unchanged
+		sc := &pScript{mode: "iterate", abandonAt: -1, preCancel: map[int]bool{}, asProp: "C07"}
+		for i := 0; i < 3*nextTotal+6; i += 2 {
+			sc.preCancel[i] = true
+		}
+		rr := pipelineExec(r, prog, newFaultPlan(), sc, false)
+		if r.Failed() {
+			return
+		}
+		pipelineJudge(r, prog, rr, newFaultPlan(), sc, X, pulls, slack, false)
 		return
 	}
 
@@ -562,7 +575,9 @@ func pipelineJudge(r *R, prog *pnode, res *pResult, plan *faultPlan, sc *pScript
 
 	// ---- C07 / C08: outputs -----------------------------------------------------------------
 	prop := "C08"
-	if faultFree || (len(plan.srcErrAt) == 0 && plan.cbFail < 0 && len(plan.transient) == 0 && len(sc.preCancel) == 0 && len(sc.deadlineAt) == 0) {
+	if sc.asProp != "" {
+		prop = sc.asProp
+	} else if faultFree || (len(plan.srcErrAt) == 0 && plan.cbFail < 0 && len(plan.transient) == 0 && len(sc.preCancel) == 0 && len(sc.deadlineAt) == 0) {
 		prop = "C07"
 	}
 	for _, sp := range b.seps {
